@@ -38,7 +38,8 @@ def eval_jobs(tier):
         for prior in ('fn', 'prior_dict', 'prior_array'):
             for blobs, dts in ((None, [None]), ('scalar', [None, 'float']),
                                ('two', [None, 'float', 'record']),
-                               ('array', [None, 'float'])):
+                               ('array', [None, 'float']),
+                               ('mixed', [None])):
                 for dt in dts:
                     for nb in ((1, 2, 3) if thorough else (1, 2)):
                         pools = [None] if vec else [None, 2]
